@@ -6,7 +6,13 @@ from vp.stage import REPO, VERIF
 ID = 'C18'
 TUS = [('mir', 'mir.c', []), ('mir-gen', 'mir-gen.c', []), ('c2mir', 'c2mir/c2mir.c', ['c2mir'])]
 # objects whose assignment is not library state coupling two contexts (documented):
-ALLOWED = {
+# Static objects whose ADDRESS escapes on the pinned tree.  The syntactic frame check cannot follow the pointers, so
+# that they are never written through is an assumption (reported in the evidence), justified per object:
+ESCAPE_ALLOWED = {
+    'default_alloc': 'table of the default allocator callbacks, handed out as ctx->alloc; only read',
+    'default_code_alloc': 'table of the default code-allocator callbacks; only read',
+    'patterns': 'x86-64 instruction pattern table; indexed, never written after initialisation',
+    'VOID_TYPE': 'c2mir: the shared "void" type object used as a pointee type; only read',
 }
 
 
@@ -67,7 +73,12 @@ def scan(work):
                 if root in statics and (fn, root) not in seen:
                     seen.add((fn, root))
                     obligations.append((name, fn, root, loc, False))
-            m2 = re.match(r'^\s+(?:ASSIGN|CALL) ', line)
+            if fn and not fn.startswith('__CPROVER'):
+                for am in re.finditer(r'address_of\((\w+)', line):
+                    sym = am.group(1)
+                    if sym in statics and sym not in ESCAPE_ALLOWED and (fn, sym, 'escape') not in seen:
+                        seen.add((fn, sym, 'escape'))
+                        obligations.append((name, fn, sym + '#address-escapes', loc, False))
         # every function contributes one discharged frame obligation per static it does NOT assign is too many to list:
         # count functions instead
         nfun = len(re.findall(r'^(\S+) /\* .* \*/$', gf, re.M))
@@ -110,7 +121,7 @@ def main(tier):
                    'location': loc, 'verifier_output': 'function %s assigns %s, an object with static storage duration '
                    'declared at %s (goto program of %s)' % (fn, sym, statics[tu].get(sym), tu),
                    'native_replay': None}, open(path, 'w'), indent=1)
-        print('VIOLATION property=C18 replay=%s obligation=%s.assigns.%s (%s assigns static object %s at %s) '
+        print('VIOLATION property=C18 replay=%s obligation=%s.assigns.%s (%s assigns or leaks the address of static object %s at %s) '
               'no-failing-input-found' % (path, fn, sym, fn, sym, loc))
         rc = 1
     total = nfuncs  # one frame obligation per function: "assigns no static object"
@@ -121,8 +132,7 @@ def main(tier):
                              'left-hand side rooted in a non-const static-lifetime object of /repo is a failed frame obligation '
                              '<function>.assigns.<symbol>',
               'trusted_base': ['goto-cc / goto-instrument 6.11.0 (translation of the real TUs to goto programs)',
-                               'syntactic frame check: writes through pointers INTO static objects whose address escaped are not '
-                               'tracked (address-taken statics are listed in samples)'],
+                               'syntactic frame check: direct assignments and address-taking of static objects'],
               'functions_scanned': nfuncs, 'static_objects': nstat,
               'samples': [{'tu': k, 'static_objects': sorted(v)[:12]} for k, v in statics.items()] +
                          [{'failed': '%s.assigns.%s' % (b[1], b[2]), 'at': b[3]} for b in bad[:10]],
@@ -130,8 +140,9 @@ def main(tier):
               'evaluations': total, 'distinct_nontrivial': max(2, nstat),
               'rule': 'one obligation per function of the three TUs: assigns no object with static storage duration',
           },
-          'assumptions': ['only direct assignments (ASSIGN / CALL lhs) are checked; a static whose address is stored and later written '
-                          'through is outside this syntactic frame condition'],
+          'assumptions': ['a mutable static whose address is taken is reported as a failed obligation unless it is one of the objects '
+                          'listed in ESCAPE_ALLOWED; for those, "never written through the escaped pointer" is assumed: '
+                          + '; '.join('%s (%s)' % kv for kv in sorted(ESCAPE_ALLOWED.items()))],
           'wall_s': round(time.time() - t0, 1), 'violations': len(viol)}
     os.makedirs(os.path.join(VERIF, 'evidence'), exist_ok=True)
     json.dump(ev, open(os.path.join(VERIF, 'evidence', 'C18.json'), 'w'), indent=1)
